@@ -411,6 +411,54 @@ def run(ctx):
         cursor_check(s_.ops[1], s_.bb, 'available-column cursor', 'the destination column for an available data column', s_.loc)
     r.require_min(2)
 
+    # ---------------- R19i contracts of the ISA-L calls on the encode side
+    r = ctx.rule('R19i', 'encode hands ec_encode_data the whole block and the caller\'s arrays; init expands the tables of the m coding rows (matrix + k*k)',
+                 'parity must be computed for every byte of every parity fragment from the coding rows of the generator: a strip-wise call with private cursors, or tables '
+                 'expanded from the wrong rows, gives parity that decodes to other data')
+    from ..poly import PolyCtx as _PC19i, Poly as _P19i
+    def prim_calls(fn, member):
+        out = []
+        for c_ in fn.insts():
+            if c_.op == 'call' and (c_.callee or '').startswith('%'):
+                d_ = fn.defs.get(c_.callee)
+                if d_ is not None and d_.op == 'load':
+                    fl_ = fields_in_path(access_path(P, fn, d_.ops[0])[1])
+                    if fl_ and fl_[-1] == ('isa_l_descriptor', member):
+                        out.append(c_)
+        return out
+    fe = P.fn('isa_l_encode')
+    ec = prim_calls(fe, 'ec_encode_data')
+    if len(ec) != 1:
+        r.fail('isa_l_encode: one ec_encode_data call', func=fe.name, sig=f'{len(ec)} ec_encode_data calls in encode', loc=fe.mod.src,
+               msg=f'isa_l_encode calls ec_encode_data {len(ec)} times: the stripe is encoded by one call over the whole block')
+    for c_ in ec[:1]:
+        pn = [n_ for _, n_ in fe.params]
+        got = [strip_int_casts(fe, c_.ops[0]), strip_ptr_casts(fe, c_.ops[4]), strip_ptr_casts(fe, c_.ops[5])]
+        want = [pn[3], pn[1], pn[2]]
+        inst = 'isa_l_encode: ec_encode_data(blocksize, k, m, tables, data, parity) gets the block length and the arrays of the request'
+        if got == want:
+            r.ok(inst, func=fe.name, loc=c_.loc)
+        else:
+            Ce = Canon(P, fe)
+            r.fail(inst, func=fe.name, sig='ec_encode_data(' + ', '.join(Ce.val(x)[:24] for x in got) + ')', loc=c_.loc,
+                   msg=f'isa_l_encode calls ec_encode_data with length {Ce.val(got[0])}, sources {Ce.val(got[1])} and destinations {Ce.val(got[2])} instead of its own '
+                       'blocksize, data and parity arguments: pieces of the fragments are encoded through private cursors')
+    fi = P.fn('isa_l_common_init')
+    pci = _PC19i(P, fi)
+    it = prim_calls(fi, 'ec_init_tables')
+    if not it:
+        r.undecided('isa_l_common_init: ec_init_tables call', loc=fi.mod.src, msg='no call through the ec_init_tables member found')
+    for c_ in it:
+        kk = pci.val(c_.ops[0])
+        root_, off_ = pci.ptr(c_.ops[2])
+        inst = 'isa_l_common_init: ec_init_tables(k, m, matrix + k*k, tables)'
+        if off_ == kk * kk and not kk.is_zero():
+            r.ok(inst, func=fi.name, loc=c_.loc)
+        else:
+            r.fail(inst, func=fi.name, sig=f'tables expanded from matrix + {str(off_)[:50]}', loc=c_.loc,
+                   msg=f'the encode tables are expanded from the generator at offset {off_} instead of k*k = {kk * kk} (the first coding row, behind the k x k identity)')
+    r.require_min(2)
+
     # ---------------- R19h rows are only accumulated into
     r = ctx.rule('R19h', 'get_inverse_rows: inside the row-building loops the rows are only XOR-accumulated (no copy / overwrite of a row)',
                  'a row already holds the contributions of earlier columns: replacing it (memcpy for a coefficient of 1) discards them and the rebuilt parity is wrong')
